@@ -118,6 +118,17 @@ impl Stats {
             for f in &t.fired {
                 *self.faults_fired.entry(format!("{}:{}", f.site, f.kind)).or_insert(0) += 1;
             }
+            // natural permission faults (unprivileged runs): planned = mode bits set in the world,
+            // fired = the OS actually refused (the program reported "Permission denied")
+            if rec.world.unpriv {
+                for m in rec.world.modes.values() {
+                    *self.faults_planned.entry(format!("os.permission:{:04o}", m)).or_insert(0) += 1;
+                }
+                let denied = String::from_utf8_lossy(&rec.run.stderr).matches("ermission denied").count() as u64;
+                if denied > 0 {
+                    *self.faults_fired.entry("os.permission:EACCES-observed".into()).or_insert(0) += denied;
+                }
+            }
             for (k, v) in crate::probes::probes(&rec.run) {
                 if v > 0 {
                     *self.probes.entry(k.to_string()).or_insert(0) += 1;
